@@ -1,4 +1,4 @@
-//@serves C01 C02 C04 C10 C11 C12
+//@serves C01 C02 C04 C10 C11 C12 C03 C14
 //@tier A
 //@include prelude/head.rs
 verus! {
